@@ -51,6 +51,9 @@ pub struct C17 {
     scribble: bool,
     /// Maximum Packet Size announced by every CONNACK of the history (and of the brand-new session it is compared with)
     max_packet: Option<u32>,
+    /// the session is configured with automatic QoS downgrade and every CONNACK after the first announces this
+    /// Maximum QoS (the first one announces none): what was retained at a higher QoS is replayed unchanged
+    resumed_max_qos: Option<u8>,
 }
 
 fn poll_until_blocked(bench: &Bench, conn: &mut Connection<'_, '_, VirtualIo>, id: usize) -> Option<Res> {
@@ -188,11 +191,28 @@ impl C17 {
             Built::Ran(b) => b,
             Built::Config(e) => panic!("machinery: {}", e),
         };
-        C17 { label: label.to_string(), tx, events, max_live, baseline, id_bound, scribble: false, max_packet: None }
+        C17 { label: label.to_string(), tx, events, max_live, baseline, id_bound, scribble: false, max_packet: None, resumed_max_qos: None }
     }
 
     fn connack(&self, session_present: bool) -> Vec<u8> {
-        connack(session_present, self.max_packet.map(|m| vec![mr::Prop { id: 0x27, val: mr::PVal::U32(m) }]).unwrap_or_default())
+        let mut props: Vec<mr::Prop> = self.max_packet.map(|m| vec![mr::Prop { id: 0x27, val: mr::PVal::U32(m) }]).unwrap_or_default();
+        if let (true, Some(q)) = (session_present, self.resumed_max_qos) {
+            props.push(mr::Prop { id: 0x24, val: mr::PVal::Byte(q) });
+        }
+        connack(session_present, props)
+    }
+
+    fn spec(&self) -> Spec {
+        let mut spec = Spec::plain(64, self.tx);
+        spec.downgrade = self.resumed_max_qos.is_some();
+        spec
+    }
+
+    /// The same configuration with automatic downgrade, under a broker that lowers its Maximum QoS when the session
+    /// is resumed.
+    pub fn with_resumed_max_qos(mut self, q: u8) -> C17 {
+        self.resumed_max_qos = Some(q);
+        self
     }
 
     /// The same configuration under a broker that limits the packet size (the baseline is taken under the same limit).
@@ -283,7 +303,7 @@ impl Model for C17 {
     }
 
     fn run(&self, hist: &[u8], record: bool) -> (StepOut, Vec<String>) {
-        let spec = Spec::plain(64, self.tx);
+        let spec = self.spec();
         let mut trace: Vec<String> = Vec::new();
         let result = std::panic::catch_unwind(std::panic::AssertUnwindSafe(|| {
             let mut trace_in: Vec<String> = Vec::new();
@@ -388,6 +408,11 @@ impl Model for C17 {
                                         if !ok {
                                             viol.push(("C17:request-bytes:undecodable".into(), format!("accepted request wrote {}", mr::hex(&w))));
                                         }
+                                        // (with automatic downgrade a QoS 2 request may go out at QoS 1)
+                                        let kind = match mr::decode_client(&w) {
+                                            Ok((CPacket::Publish(pp), _)) if kind == 2 && pp.qos == 1 => 1,
+                                            _ => kind,
+                                        };
                                         retained.push(Live { kind, pid: free_id, tag: free_tag, first: w });
                                     }
                                     Err(e) => {
@@ -567,6 +592,9 @@ pub fn models(tier: Tier) -> Vec<C17> {
         C17::new("C17-arena-200-slot-limited-mixed-kinds", 200, &[0], &[1, 2, 3, 4], false, 3, true, 0),
         // a broker that limits the packet size below the arena: requests refused as too large leave no trace either
         C17::new("C17-arena-96-maximum-packet-size-40", 96, &[0, 7, 84], &[1, 2, 3], true, 3, false, 0).with_max_packet(40),
+        // automatic downgrade configured, the broker lowers its Maximum QoS on resume: retained QoS 2 publishes are
+        // replayed byte for byte all the same
+        C17::new("C17-arena-96-maximum-qos-lowered-on-resume", 96, &[0, 7], &[1, 2], false, 3, false, 0).with_resumed_max_qos(1),
         // a QoS 0 publish whose fixed header is longer than that of the retained packets
         C17::new("C17-arena-400-long-header-scratch", 400, &[1, 140], &[1], true, 2, false, 0),
     ];
